@@ -90,9 +90,21 @@ def judge_program(n, prog):
     return []
 
 
+def case_of(kind, it):
+    case = {"kind": kind}
+    if kind in ("strings", "matrices"):
+        case["strs"] = list(it)
+    elif kind == "graph":
+        case["n"], case["graph_id"] = it
+    else:
+        case["n"], case["program"] = it[0], [list(g) for g in it[1]]
+    return case
+
+
 def _work(payload):
     kind, items = payload
     fails = []
+    hist = core.History(to_case=lambda it: case_of(kind, it))
     for it in items:
         try:
             if kind == "strings":
@@ -105,8 +117,11 @@ def _work(payload):
                 msgs = judge_program(it[0], [tuple(g) for g in it[1]])
         except Exception as ex:      # noqa: BLE001
             msgs = ["raised %s: %s" % (type(ex).__name__, str(ex)[:160])]
-        for m in msgs[:2]:
-            fails.append((m, it))
+        if msgs:
+            cj = hist.attach(case_of(kind, it))
+            for m in msgs[:2]:
+                fails.append((m, it, cj))
+        hist.add(it)
     return len(items), fails
 
 
@@ -116,14 +131,7 @@ def run_items(ctx, label, kind, items):
     for cnt, fails in core.pmap(_work, [(kind, items[k::nch]) for k in range(nch)]):
         ctx.count("evaluations", cnt)
         ctx.count(kind + "_cases", cnt)
-        for m, it in sorted(fails, key=lambda t: (len(str(t[1])), str(t[1]))):
-            case = {"kind": kind}
-            if kind in ("strings", "matrices"):
-                case["strs"] = list(it)
-            elif kind == "graph":
-                case["n"], case["graph_id"] = it
-            else:
-                case["n"], case["program"] = it[0], [list(g) for g in it[1]]
+        for m, it, case in sorted(fails, key=lambda t: (len(str(t[1])), str(t[1]))):
             ctx.violation(case, "%s: %s: %s" % (kind, it if kind != "program" else programs.show(it[1]), m))
     ctx.bounds.setdefault("explored", {})[label] = len(items)
 
